@@ -2,11 +2,39 @@ package main
 
 import (
 	"fmt"
+	"go/token"
+	"go/types"
 	"sort"
 	"strings"
 
 	"golang.org/x/tools/go/ssa"
 )
+
+// Section extraction (see the header of main.go).
+//
+// The walk is INTERPROCEDURAL for helpers: the SSA paths of a wrapper are followed instruction
+// by instruction; a call of a function that is not itself an exported API wrapper and that is
+// "lockish" (its body, transitively, operates on the SyncedEnforcer's own mutex, or it creates /
+// hands on a function value that does) is walked INLINE, continuation-passing: every path of the
+// callee that reaches its Return continues with the caller's remaining instructions.  Each
+// activation has its own defer stack, run at its RunDefers.  Function values are followed through
+// parameters, closure bindings, call results, phi nodes (the edge actually taken) and local
+// variable cells with a single store, so that
+//
+//	func (e *SyncedEnforcer) withRLock(f func()) { e.m.RLock(); defer e.m.RUnlock(); f() }
+//	defer e.acquireRead()()      // acquireRead: e.m.RLock(); return e.m.RUnlock
+//
+// give the same sections as the direct style.  A function value that reaches a call through the
+// context of the walk is ALWAYS walked inline (its accesses are not part of the calling frame's
+// own may-access record); one that cannot be resolved makes the wrapper Irregular whenever it may
+// matter (never guess).  Accesses seen in an inlined body are attributed to the section open at
+// that moment, using the body's own funcAnalysis; their roots (parameter i / free variable j of
+// that body) are mapped back through the call sites and closure bindings to the wrapper's frame,
+// where only the receiver, globals and captured variables of goroutine bodies count as shared.
+// The lock state (sections, open section) is global to the walk; all the soundness checks
+// (re-entrant acquisition, release without holding, return of the WRAPPER while holding, paths
+// that disagree, lock state changing inside a loop of any activation, recursion among helpers)
+// make the wrapper Irregular with a reason.
 
 type accOut struct {
 	Kind byte
@@ -37,33 +65,100 @@ type Wrapper struct {
 	Sections  []*Section
 	APICalls  map[string]bool
 	Spawns    []string
+	Inlined   []string          // helpers walked inline (informational)
 	Synthetic bool              // goroutine body started by a wrapper
 	Escapes   map[string]string // shared memory the returned values point to -> site
+}
+
+// fval is a function value the walk has resolved: a function plus, for a closure, its bindings
+// and the activation they were evaluated in.
+type fval struct {
+	fn   *ssa.Function
+	bind []ssa.Value
+	in   *inst
+}
+
+// aref is an actual argument: a value of the activation that evaluated it.
+type aref struct {
+	v  ssa.Value
+	in *inst
+}
+
+// inst is one activation of a function in the walk (immutable apart from the caches; the
+// path-specific parts live in act / pstate).
+type inst struct {
+	fn       *ssa.Function
+	fa       *funcAnalysis
+	caller   *inst  // nil: the wrapper / goroutine body itself
+	args     []aref // per parameter
+	clo      *fval  // the closure value this activation runs (bindings), nil for plain functions
+	goStatic bool   // top-level body started by `go f(args)`: every parameter is shared with the spawner
+	depth    int
+	onPath   map[*ssa.BasicBlock]string
+}
+
+type deferRec struct {
+	ins   *ssa.Defer
+	fv    *fval // resolved at the defer statement when the callee is a function value
+	tried bool
+}
+
+// act is the path-specific part of an activation.
+type act struct {
+	in     *inst
+	defers []deferRec
+	retB   *ssa.BasicBlock // where the caller continues
+	retI   int
+	retVal ssa.Value // the call in the caller whose results get bound (nil: deferred / none)
+}
+
+type fvKey struct {
+	in  *inst
+	v   ssa.Value
+	idx int
+}
+
+type spawnRec struct {
+	fn     *ssa.Function
+	static bool // go f(args) rather than go func(){...}()
 }
 
 type pstate struct {
 	secs    []*Section
 	open    int
 	none    int
-	defers  []ssa.Instruction
+	stack   []*act
+	fv      map[fvKey]*fval // function values known on this path: call results, phi nodes
 	api     map[string]bool
-	spawns  []*ssa.Function
+	spawns  []spawnRec
+	inlined map[string]bool
 	irr     string
-	lockSeq string
 }
 
 func (p *pstate) clone() *pstate {
-	n := &pstate{open: p.open, none: p.none, irr: p.irr, api: map[string]bool{}, lockSeq: p.lockSeq}
+	n := &pstate{open: p.open, none: p.none, irr: p.irr, api: map[string]bool{}, fv: map[fvKey]*fval{}, inlined: map[string]bool{}}
 	for _, s := range p.secs {
 		n.secs = append(n.secs, s.clone())
 	}
-	n.defers = append(n.defers, p.defers...)
+	for _, a := range p.stack {
+		c := *a
+		c.defers = append([]deferRec(nil), a.defers...)
+		n.stack = append(n.stack, &c)
+	}
+	for k, v := range p.fv {
+		n.fv[k] = v
+	}
 	n.spawns = append(n.spawns, p.spawns...)
 	for k := range p.api {
 		n.api[k] = true
 	}
+	for k := range p.inlined {
+		n.inlined[k] = true
+	}
 	return n
 }
+
+func (p *pstate) top() *act { return p.stack[len(p.stack)-1] }
 
 func (p *pstate) sig() string {
 	var b strings.Builder
@@ -72,63 +167,145 @@ func (p *pstate) sig() string {
 			b.WriteString(s.Mode)
 		}
 	}
-	fmt.Fprintf(&b, "|%v|%d", p.open >= 0, len(p.defers))
+	fmt.Fprintf(&b, "|%v|%d|%d", p.open >= 0, len(p.top().defers), len(p.stack))
 	return b.String()
 }
 
 type wrapAnalysis struct {
 	A      *Analyzer
-	fa     *funcAnalysis
 	fn     *ssa.Function
+	root   *inst
 	paths  []*pstate
 	npaths int
 	isGo   bool
 }
 
-// lockOp recognises e.m.Lock / RLock / Unlock / RUnlock on the SyncedEnforcer's own mutex.
-func (w *wrapAnalysis) lockOp(cc *ssa.CallCommon) string {
-	f := cc.StaticCallee()
-	if f == nil || len(cc.Args) == 0 {
-		return ""
+const maxPaths = 20000
+const maxInlineDepth = 40
+
+var lockOps = map[string]bool{"Lock": true, "RLock": true, "Unlock": true, "RUnlock": true}
+
+func isMutexMethod(f *ssa.Function) bool {
+	if f == nil {
+		return false
 	}
-	if r := recvTypeName(f); r != "sync.RWMutex" && r != "sync.Mutex" {
-		return ""
-	}
-	if locOf(cc.Args[0]) != w.A.syncedM {
-		return ""
-	}
-	return f.Name()
+	r := recvTypeName(f)
+	return r == "sync.RWMutex" || r == "sync.Mutex"
 }
 
-func (w *wrapAnalysis) sharedRoot(t Tag) bool {
-	switch t.K {
-	case tShared, tFree:
+// mutexLoc names the mutex a lock operation works on, following parameters and closure bindings
+// of inlined activations back to where the address was taken.
+func (w *wrapAnalysis) mutexLoc(in *inst, v ssa.Value, depth int) string {
+	if depth > 30 {
+		return "?"
+	}
+	switch x := v.(type) {
+	case *ssa.Parameter:
+		for i, p := range in.fn.Params {
+			if p == x && i < len(in.args) {
+				return w.mutexLoc(in.args[i].in, in.args[i].v, depth+1)
+			}
+		}
+		return "?"
+	case *ssa.FreeVar:
+		if in.clo != nil {
+			for i, p := range in.fn.FreeVars {
+				if p == x && i < len(in.clo.bind) && in.clo.in != nil {
+					return w.mutexLoc(in.clo.in, in.clo.bind[i], depth+1)
+				}
+			}
+		}
+		return "?"
+	case *ssa.ChangeType:
+		return w.mutexLoc(in, x.X, depth+1)
+	case *ssa.Phi, *ssa.Call, *ssa.Extract:
+		return "?"
+	}
+	l := locOf(v)
+	if l == "sync.RWMutex" || l == "sync.Mutex" || strings.HasPrefix(l, "?") {
+		return "?"
+	}
+	return l
+}
+
+// shared reports whether an access root of activation `in` denotes memory shared between API
+// calls: roots are mapped through the call sites / closure bindings down to the wrapper's frame.
+func (w *wrapAnalysis) shared(in *inst, t Tag, depth int) bool {
+	if depth > 60 {
 		return true
-	case tParam:
-		return t.I == 0 && !w.isGo
 	}
-	return false
+	switch t.K {
+	case tShared:
+		return true
+	case tLoc, tVia:
+		return false
+	case tParam:
+		if in.caller == nil {
+			if in.goStatic {
+				return true
+			}
+			return t.I == 0 && !w.isGo
+		}
+		if t.I >= len(in.args) {
+			return true
+		}
+		a := in.args[t.I]
+		d := t.D
+		if d > 2 {
+			d = 2
+		}
+		for tt := range a.in.fa.D(a.v)[d] {
+			if w.shared(a.in, tt, depth+1) {
+				return true
+			}
+		}
+		return false
+	case tFree:
+		if in.clo == nil || in.clo.in == nil {
+			return true // a goroutine body / callback: its captured variables are shared
+		}
+		if t.I >= len(in.clo.bind) {
+			return true
+		}
+		d := t.D
+		if d > 2 {
+			d = 2
+		}
+		for tt := range in.clo.in.fa.D(in.clo.bind[t.I])[d] {
+			if w.shared(in.clo.in, tt, depth+1) {
+				return true
+			}
+		}
+		return false
+	}
+	return true
 }
 
-func (w *wrapAnalysis) attribute(st *pstate, ins ssa.Instruction) {
+func (w *wrapAnalysis) sharedRoot(t Tag) bool { return w.shared(w.root, t, 0) }
+
+func calleeName(ins ssa.Instruction) string {
+	if ci, ok := ins.(ssa.CallInstruction); ok {
+		if f := ci.Common().StaticCallee(); f != nil {
+			return fnName(f)
+		} else if ci.Common().IsInvoke() {
+			return typeName(ci.Common().Value.Type()) + "." + ci.Common().Method.Name()
+		}
+	}
+	return ""
+}
+
+func (w *wrapAnalysis) attribute(st *pstate, in *inst, ins ssa.Instruction) {
 	var accs []accRec
-	for _, a := range w.fa.instrAcc[ins] {
+	for _, a := range in.fa.instrAcc[ins] {
 		for _, r := range a.Roots {
-			if w.sharedRoot(r) {
+			if w.shared(in, r, 0) {
 				accs = append(accs, a)
 				break
 			}
 		}
 	}
-	apis := w.fa.instrAPI[ins]
-	callee := ""
-	if ci, ok := ins.(ssa.CallInstruction); ok {
-		if f := ci.Common().StaticCallee(); f != nil {
-			callee = fnName(f)
-		} else if ci.Common().IsInvoke() {
-			callee = typeName(ci.Common().Value.Type()) + "." + ci.Common().Method.Name()
-		}
-	}
+	apis := in.fa.instrAPI[ins]
+	callee := calleeName(ins)
 	if len(apis) > 0 {
 		if st.open >= 0 {
 			st.irr = "calls " + callee + ", which acquires the SyncedEnforcer lock, while holding it (sync.RWMutex is not reentrant)"
@@ -195,67 +372,365 @@ func (w *wrapAnalysis) doLock(st *pstate, op string) {
 }
 
 func (w *wrapAnalysis) finish(st *pstate) {
+	w.npaths++
 	w.paths = append(w.paths, st)
 }
 
-func (w *wrapAnalysis) walk(b *ssa.BasicBlock, st *pstate, onPath map[*ssa.BasicBlock]string) {
-	if w.npaths > 20000 {
+func isFuncType(t types.Type) bool {
+	_, ok := t.Underlying().(*types.Signature)
+	return ok
+}
+
+// resolve follows a function value to the function / closure it denotes on this path.
+func (w *wrapAnalysis) resolve(st *pstate, in *inst, v ssa.Value, depth int) *fval {
+	if depth > 40 || in == nil {
+		return nil
+	}
+	switch x := v.(type) {
+	case *ssa.Function:
+		return &fval{fn: x}
+	case *ssa.MakeClosure:
+		return &fval{fn: x.Fn.(*ssa.Function), bind: x.Bindings, in: in}
+	case *ssa.ChangeType:
+		return w.resolve(st, in, x.X, depth+1)
+	case *ssa.Parameter:
+		for i, p := range in.fn.Params {
+			if p == x && i < len(in.args) {
+				return w.resolve(st, in.args[i].in, in.args[i].v, depth+1)
+			}
+		}
+		return nil
+	case *ssa.FreeVar:
+		if in.clo == nil {
+			return nil
+		}
+		for i, p := range in.fn.FreeVars {
+			if p == x && i < len(in.clo.bind) {
+				return w.resolve(st, in.clo.in, in.clo.bind[i], depth+1)
+			}
+		}
+		return nil
+	case *ssa.Call:
+		return st.fv[fvKey{in, x, 0}]
+	case *ssa.Extract:
+		if c, ok := x.Tuple.(*ssa.Call); ok {
+			return st.fv[fvKey{in, c, x.Index}]
+		}
+		return nil
+	case *ssa.Phi:
+		return st.fv[fvKey{in, x, 0}]
+	case *ssa.UnOp:
+		if x.Op != token.MUL {
+			return nil
+		}
+		// a local variable cell (possibly captured): exactly one store, made by its owner
+		cv, cin := x.X, in
+		for k := 0; k < 20; k++ {
+			fvr, ok := cv.(*ssa.FreeVar)
+			if !ok {
+				break
+			}
+			if cin.clo == nil || cin.clo.in == nil {
+				return nil
+			}
+			found := false
+			for i, p := range cin.fn.FreeVars {
+				if p == fvr && i < len(cin.clo.bind) {
+					cv, cin = cin.clo.bind[i], cin.clo.in
+					found = true
+					break
+				}
+			}
+			if !found {
+				return nil
+			}
+		}
+		a, ok := cv.(*ssa.Alloc)
+		if !ok || cin.fn != a.Parent() {
+			return nil
+		}
+		ci := w.A.cell(a)
+		if ci.escapes || len(ci.stores) != 1 || ci.stores[0].g != a.Parent() {
+			return nil
+		}
+		return w.resolve(st, cin, ci.stores[0].val, depth+1)
+	}
+	return nil
+}
+
+// ctxDerived: the value comes from the caller of this activation (parameter / captured variable).
+func ctxDerived(v ssa.Value) bool {
+	switch x := v.(type) {
+	case *ssa.Parameter, *ssa.FreeVar:
+		return true
+	case *ssa.ChangeType:
+		return ctxDerived(x.X)
+	case *ssa.UnOp:
+		if x.Op == token.MUL {
+			_, ok := x.X.(*ssa.FreeVar)
+			return ok
+		}
+	}
+	return false
+}
+
+// call handles one call (immediate, or a deferred one at RunDefers).  It returns true when the
+// callee is walked inline: the walk of the current block is then resumed at (retB, retI) by the
+// callee's Return.
+func (w *wrapAnalysis) call(st *pstate, ins ssa.Instruction, cc *ssa.CallCommon, callVal ssa.Value, d *deferRec, retB *ssa.BasicBlock, retI int) bool {
+	cur := st.top()
+	in := cur.in
+	if cc.IsInvoke() {
+		w.attribute(st, in, ins)
+		return false
+	}
+	var target *fval
+	viaCtx := false
+	switch v := cc.Value.(type) {
+	case *ssa.Builtin:
+		w.attribute(st, in, ins)
+		return false
+	case *ssa.Function:
+		target = &fval{fn: v}
+	case *ssa.MakeClosure:
+		target = &fval{fn: v.Fn.(*ssa.Function), bind: v.Bindings, in: in}
+	default:
+		viaCtx = true
+		if d != nil && d.tried {
+			target = d.fv
+		} else {
+			target = w.resolve(st, in, cc.Value, 0)
+		}
+		if target == nil {
+			if len(in.fa.instrAPI[ins]) > 0 {
+				st.irr = "calls a function value the analysis cannot resolve, which may acquire the SyncedEnforcer lock"
+				return false
+			}
+			if ctxDerived(cc.Value) && (in.caller != nil || in.clo != nil || w.isGo) {
+				st.irr = "calls a function value handed in from outside the walked code (" + fnName(in.fn) + "): what it does is unknown here"
+				return false
+			}
+			w.attribute(st, in, ins)
+			return false
+		}
+	}
+	f := target.fn
+	if isMutexMethod(f) && len(cc.Args) > 0 {
+		loc := w.mutexLoc(in, cc.Args[0], 0)
+		switch {
+		case loc == w.A.syncedM:
+			if !lockOps[f.Name()] {
+				st.irr = "uses " + f.Name() + " on the SyncedEnforcer lock (not modelled)"
+				return false
+			}
+			w.doLock(st, f.Name())
+		case loc == "?":
+			st.irr = "operates on a mutex the analysis cannot identify (" + f.Name() + " in " + fnName(in.fn) + ")"
+		default:
+			w.attribute(st, in, ins)
+		}
+		return false
+	}
+	if w.A.wrapperSet[f] {
+		if viaCtx {
+			// not part of the calling frame's own record: handle the API call here
+			if st.open >= 0 && len(w.A.sumAPI(f)) > 0 {
+				st.irr = "calls " + fnName(f) + ", which acquires the SyncedEnforcer lock, while holding it (sync.RWMutex is not reentrant)"
+				return false
+			}
+			if len(w.A.sumAPI(f)) > 0 {
+				st.api[fnName(f)] = true
+				return false
+			}
+			// a lock-free wrapper reached through a function value: walk it
+		} else {
+			w.attribute(st, in, ins)
+			return false
+		}
+	}
+	if !viaCtx && !w.A.lockish[f] && len(in.fa.instrAPI[ins]) == 0 {
+		// nothing in it (or in what it is handed) operates the lock: its accesses are in this
+		// frame's own record
+		w.attribute(st, in, ins)
+		return false
+	}
+	if f.Blocks == nil {
+		if viaCtx {
+			st.irr = "calls the function value " + fnName(f) + ", whose body is not analysed"
+		} else {
+			w.attribute(st, in, ins)
+		}
+		return false
+	}
+	fa := w.A.final[f]
+	if fa == nil {
+		st.irr = "helper " + fnName(f) + " was not analysed"
+		return false
+	}
+	for _, a := range st.stack {
+		if a.in.fn == f {
+			st.irr = "recursion among the helpers that operate the lock (" + fnName(f) + ")"
+			return false
+		}
+	}
+	if len(st.stack) >= maxInlineDepth {
+		st.irr = "helpers nested too deeply"
+		return false
+	}
+	ni := &inst{fn: f, fa: fa, caller: in, depth: in.depth + 1, onPath: map[*ssa.BasicBlock]string{}}
+	for _, a := range cc.Args {
+		ni.args = append(ni.args, aref{a, in})
+	}
+	if target.bind != nil || len(f.FreeVars) > 0 {
+		ni.clo = target
+	}
+	st.inlined[fnName(f)] = true
+	st.stack = append(st.stack, &act{in: ni, retB: retB, retI: retI, retVal: callVal})
+	w.enterBlock(st, f.Blocks[0], nil)
+	return true
+}
+
+func (w *wrapAnalysis) enterBlock(st *pstate, b *ssa.BasicBlock, from *ssa.BasicBlock) {
+	if w.npaths > maxPaths {
 		st.irr = "too many paths"
 		w.finish(st)
 		return
 	}
-	if prev, ok := onPath[b]; ok {
+	in := st.top().in
+	if prev, ok := in.onPath[b]; ok {
 		if prev != st.sig() {
 			st.irr = "lock state changes inside a loop"
 		}
 		w.finish(st)
 		return
 	}
-	onPath[b] = st.sig()
-	defer delete(onPath, b)
-	for _, ins := range b.Instrs {
+	in.onPath[b] = st.sig()
+	defer delete(in.onPath, b)
+	if from != nil {
+		pi := -1
+		for i, p := range b.Preds {
+			if p == from {
+				pi = i
+			}
+		}
+		for _, ins := range b.Instrs {
+			phi, ok := ins.(*ssa.Phi)
+			if !ok {
+				break
+			}
+			if !isFuncType(phi.Type()) {
+				continue
+			}
+			k := fvKey{in, phi, 0}
+			var fv *fval
+			if pi >= 0 && pi < len(phi.Edges) {
+				fv = w.resolve(st, in, phi.Edges[pi], 0)
+			}
+			if fv != nil {
+				st.fv[k] = fv
+			} else {
+				delete(st.fv, k)
+			}
+		}
+	}
+	w.run(st, b, 0)
+}
+
+func (w *wrapAnalysis) run(st *pstate, b *ssa.BasicBlock, i int) {
+	for ; i < len(b.Instrs); i++ {
 		if st.irr != "" {
 			w.finish(st)
 			return
 		}
+		cur := st.top()
+		in := cur.in
+		ins := b.Instrs[i]
 		switch x := ins.(type) {
 		case *ssa.Call:
-			if op := w.lockOp(x.Common()); op != "" {
-				w.doLock(st, op)
-			} else {
-				w.attribute(st, ins)
+			if w.call(st, ins, x.Common(), x, nil, b, i+1) {
+				return
 			}
 		case *ssa.Defer:
-			st.defers = append(st.defers, ins)
-		case *ssa.RunDefers:
-			for i := len(st.defers) - 1; i >= 0; i-- {
-				d := st.defers[i].(*ssa.Defer)
-				if op := w.lockOp(d.Common()); op != "" {
-					w.doLock(st, op)
-				} else {
-					w.attribute(st, d)
+			rec := deferRec{ins: x}
+			cc := x.Common()
+			if !cc.IsInvoke() {
+				switch cc.Value.(type) {
+				case *ssa.Function, *ssa.MakeClosure, *ssa.Builtin:
+				default:
+					// the function value of a defer statement is evaluated here
+					rec.fv = w.resolve(st, in, cc.Value, 0)
+					rec.tried = true
 				}
 			}
-			st.defers = nil
+			cur.defers = append(cur.defers, rec)
+		case *ssa.RunDefers:
+			if n := len(cur.defers); n > 0 {
+				d := cur.defers[n-1]
+				cur.defers = cur.defers[:n-1]
+				if w.call(st, d.ins, d.ins.Common(), nil, &d, b, i) {
+					return
+				}
+				i-- // the same RunDefers again, for the remaining deferred calls
+			}
 		case *ssa.Go:
-			if f := w.fa.spawned[ins]; f != nil {
-				st.spawns = append(st.spawns, f)
-			} else {
+			cc := x.Common()
+			var f *ssa.Function
+			static := false
+			if !cc.IsInvoke() {
+				switch v := cc.Value.(type) {
+				case *ssa.MakeClosure:
+					f = v.Fn.(*ssa.Function)
+				case *ssa.Function:
+					f, static = v, true
+				default:
+					if fv := w.resolve(st, in, cc.Value, 0); fv != nil && fv.bind == nil && len(fv.fn.FreeVars) == 0 {
+						f, static = fv.fn, true
+					}
+				}
+			}
+			switch {
+			case f == nil || f.Blocks == nil:
 				st.irr = "starts a goroutine the analysis cannot resolve"
+			case w.A.wrapperSet[f]:
+				st.api[fnName(f)] = true // an API call made from a new goroutine
+			default:
+				st.spawns = append(st.spawns, spawnRec{f, static})
 			}
 		case *ssa.Return:
-			if st.open >= 0 {
-				st.irr = "returns while holding the lock"
+			if len(st.stack) == 1 {
+				if st.open >= 0 {
+					st.irr = "returns while holding the lock"
+				}
+				w.finish(st)
+				return
 			}
-			w.npaths++
-			w.finish(st)
+			if len(cur.defers) > 0 {
+				st.irr = "internal: deferred calls left at the return of " + fnName(in.fn)
+				w.finish(st)
+				return
+			}
+			callerIn := st.stack[len(st.stack)-2].in
+			if cur.retVal != nil {
+				for k, r := range x.Results {
+					if !isFuncType(r.Type()) {
+						continue
+					}
+					key := fvKey{callerIn, cur.retVal, k}
+					if fv := w.resolve(st, in, r, 0); fv != nil {
+						st.fv[key] = fv
+					} else {
+						delete(st.fv, key)
+					}
+				}
+			}
+			st.stack = st.stack[:len(st.stack)-1]
+			w.run(st, cur.retB, cur.retI)
 			return
 		case *ssa.Panic:
-			w.npaths++
 			w.finish(st)
 			return
 		default:
-			w.attribute(st, ins)
+			w.attribute(st, in, ins)
 		}
 	}
 	if st.irr != "" {
@@ -263,12 +738,12 @@ func (w *wrapAnalysis) walk(b *ssa.BasicBlock, st *pstate, onPath map[*ssa.Basic
 		return
 	}
 	succs := b.Succs
-	for i, s := range succs {
+	for k, s := range succs {
 		ns := st
-		if i < len(succs)-1 {
+		if k < len(succs)-1 {
 			ns = st.clone()
 		}
-		w.walk(s, ns, onPath)
+		w.enterBlock(ns, s, b)
 	}
 	if len(succs) == 0 {
 		w.finish(st)
@@ -283,7 +758,9 @@ func modes(secs []*Section) string {
 	return b.String()
 }
 
-func (A *Analyzer) analyzeWrapper(fn *ssa.Function, name string, isGo bool) (*Wrapper, []*ssa.Function) {
+// analyzeWrapper extracts the sections of one API wrapper (isGo false) or of a goroutine body /
+// callback (isGo true; static: started by `go f(args)`).
+func (A *Analyzer) analyzeWrapper(fn *ssa.Function, name string, isGo, static bool) (*Wrapper, []spawnRec) {
 	fa := A.final[fn]
 	wr := &Wrapper{Name: name, APICalls: map[string]bool{}, Synthetic: isGo}
 	if fn.Pos().IsValid() {
@@ -294,21 +771,24 @@ func (A *Analyzer) analyzeWrapper(fn *ssa.Function, name string, isGo bool) (*Wr
 		wr.Irregular = "not analysed"
 		return wr, nil
 	}
-	w := &wrapAnalysis{A: A, fa: fa, fn: fn, isGo: isGo}
-	st := &pstate{open: -1, none: -1, api: map[string]bool{}}
-	w.walk(fn.Blocks[0], st, map[*ssa.BasicBlock]string{})
+	root := &inst{fn: fn, fa: fa, goStatic: isGo && static, onPath: map[*ssa.BasicBlock]string{}}
+	w := &wrapAnalysis{A: A, fn: fn, isGo: isGo, root: root}
+	st := &pstate{open: -1, none: -1, api: map[string]bool{}, fv: map[fvKey]*fval{}, inlined: map[string]bool{}}
+	st.stack = []*act{{in: root}}
+	w.enterBlock(st, fn.Blocks[0], nil)
 	// merge the paths: every path must be a prefix of the longest one
 	var longest *pstate
 	for _, p := range w.paths {
-		if p.irr != "" {
+		if p.irr != "" && (wr.Irregular == "" || p.irr < wr.Irregular) {
 			wr.Irregular = p.irr
 		}
 		if longest == nil || len(p.secs) > len(longest.secs) {
 			longest = p
 		}
 	}
-	var spawned []*ssa.Function
+	var spawned []spawnRec
 	seenSp := map[*ssa.Function]bool{}
+	inl := map[string]bool{}
 	if longest != nil {
 		lm := modes(longest.secs)
 		for _, s := range longest.secs {
@@ -335,14 +815,18 @@ func (A *Analyzer) analyzeWrapper(fn *ssa.Function, name string, isGo bool) (*Wr
 			for k := range p.api {
 				wr.APICalls[k] = true
 			}
+			for k := range p.inlined {
+				inl[k] = true
+			}
 			for _, f := range p.spawns {
-				if !seenSp[f] {
-					seenSp[f] = true
+				if !seenSp[f.fn] {
+					seenSp[f.fn] = true
 					spawned = append(spawned, f)
 				}
 			}
 		}
 	}
+	wr.Inlined = keys(inl)
 	if len(wr.Sections) == 0 && wr.Irregular == "" {
 		// takes no lock and touches nothing shared: one empty lock-free section
 		wr.Sections = []*Section{{Mode: "N", Acc: map[accOut]string{}, Callees: map[string]bool{}}}
@@ -356,7 +840,7 @@ func (A *Analyzer) analyzeWrapper(fn *ssa.Function, name string, isGo bool) (*Wr
 		}
 	}
 	for _, f := range spawned {
-		wr.Spawns = append(wr.Spawns, fnName(f))
+		wr.Spawns = append(wr.Spawns, fnName(f.fn))
 	}
 	sort.Strings(wr.Spawns)
 	return wr, spawned
